@@ -323,7 +323,8 @@ def implied_conditions(F, body, du, s, depth=3):
             defs = [(b, j, st) for b, j, st in body.stmts() if st['k'] == 'assign' and st['lhs']['l'] == l and not st['lhs'].get('p')]
             # a flag may also be defined by the result of a call: `let f = match x { Some(c) => c.is_ascii_digit(), None => false }`
             cdefs = [(b, t) for b, t in body.calls() if t['dest']['l'] == l and not t['dest'].get('p')]
-            srcs = {json.dumps(operand_place(d_[2]['rv']['o']), sort_keys=True) if d_[2]['rv']['k'] == 'use' else None for d_ in defs}
+            srcs = {json.dumps(operand_place(d_[2]['rv']['o']), sort_keys=True)
+                    if d_[2]['rv']['k'] == 'use' and operand_place(d_[2]['rv']['o']) is not None else None for d_ in defs}
             if defs and not cdefs and len(srcs) == 1 and None not in srcs:
                 # plain copies of ONE other bool local (the return place of an inlined helper, possibly on several
                 # threaded paths): same truth value
